@@ -60,6 +60,11 @@ type c02Cfg struct {
 	Compat    bool   `json:"compat"`
 	PingLimit int    `json:"pinglimit,omitempty"`
 	Backends  []c02B `json:"backends"`
+	// outgoing scenario only: the configuration is changed between the requests (secrets changed,
+	// URLs exchanged, a backend removed and added again) - by BackendClient.Reload, or, with Etcd,
+	// by put / delete events on an etcd backend storage
+	Reload bool `json:"reload,omitempty"`
+	Etcd   bool `json:"etcd,omitempty"`
 }
 
 func (c c02Cfg) key() string { b, _ := json.Marshal(c); return string(b) }
@@ -101,6 +106,10 @@ type c02OutRec struct {
 	NRnd    int
 	NChk    int
 	Body    []byte
+	// the configuration in force when the request was received
+	Phase string  // which step of the configuration history
+	Cur   *string // secret the generator configured for the backend at this endpoint's URL now (nil: none)
+	Look  *string // secret of hub.backend.GetBackend(request URL) now (nil: none); oracle for the model
 }
 
 type c02Fake struct {
@@ -108,6 +117,19 @@ type c02Fake struct {
 	recs      []c02OutRec
 	caps      int
 	pingLimit int
+	// endpoint id -> secret of the backend that is configured at that endpoint's URL now,
+	// from the harness's own bookkeeping of what it configured (absent: no backend there)
+	cur    map[int]string
+	phase  string
+	lookup func(u *url.URL) *string
+}
+
+// setCur replaces the table of secrets in force (after the configuration of the server was changed).
+func (f *c02Fake) setCur(phase string, cur map[int]string) {
+	f.mu.Lock()
+	defer f.mu.Unlock()
+	f.phase = phase
+	f.cur = cur
 }
 
 func (f *c02Fake) count() int { f.mu.Lock(); defer f.mu.Unlock(); return len(f.recs) }
@@ -128,11 +150,22 @@ func (f *c02Fake) handler(t *testing.T, id int) http.HandlerFunc {
 		case req.Session != nil:
 			kind += "/" + req.Session.Action
 		}
+		// the backend the running server resolves the URL of this request to, now
+		var look *string
+		if f.lookup != nil {
+			if u, err := url.Parse("http://" + r.Host + r.URL.Path); err == nil {
+				look = f.lookup(u)
+			}
+		}
 		f.mu.Lock()
+		var cur *string
+		if s, ok := f.cur[id]; ok {
+			cur = &s
+		}
 		f.recs = append(f.recs, c02OutRec{Backend: id, Kind: kind,
 			Rnd: r.Header.Get(c02HdrRandom), Chk: r.Header.Get(c02HdrChecksum),
 			NRnd: len(r.Header.Values(c02HdrRandom)), NChk: len(r.Header.Values(c02HdrChecksum)),
-			Body: body})
+			Body: body, Phase: f.phase, Cur: cur, Look: look})
 		f.mu.Unlock()
 		var resp *BackendClientResponse
 		switch req.Type {
@@ -191,6 +224,86 @@ type c02World struct {
 	last    time.Duration
 	seq     int
 	http    *http.Client
+	layout  []c02Entry          // what is configured now (outgoing scenario with reloads)
+	etcd    *backendStorageEtcd // Etcd configurations
+}
+
+// backend<Name> is configured at the URL of endpoint Endpoint (base[Endpoint-1]) with Secret
+type c02Entry struct {
+	Name     int
+	Endpoint int
+	Secret   string
+}
+
+// the secret in force per endpoint
+func c02CurOf(layout []c02Entry) map[int]string {
+	m := map[int]string{}
+	for _, e := range layout {
+		m[e.Endpoint] = e.Secret
+	}
+	return m
+}
+
+// backendStorageEtcd.Close needs the etcd client the harness does not have
+type c02EtcdStorage struct{ *backendStorageEtcd }
+
+func (c02EtcdStorage) Close() {}
+
+// serverConfig writes the configuration file for a layout (everything but the backends is constant).
+func (w *c02World) serverConfig(layout []c02Entry) *goconf.ConfigFile {
+	config := goconf.NewConfigFile()
+	if w.cfg.Compat {
+		u, _ := url.Parse(w.server.URL)
+		config.AddOption("backend", "allowed", u.Host)
+		config.AddOption("backend", "secret", w.cfg.Backends[0].Secret)
+	} else if !w.cfg.Etcd {
+		var ids []string
+		for _, e := range layout {
+			name := fmt.Sprintf("backend%d", e.Name)
+			ids = append(ids, name)
+			config.AddOption(name, "url", w.base[e.Endpoint-1])
+			config.AddOption(name, "secret", e.Secret)
+		}
+		config.AddOption("backend", "backends", strings.Join(ids, ", "))
+	}
+	config.AddOption("backend", "allowhttp", "true")
+	config.AddOption("sessions", "hashkey", "12345678901234567890123456789012")
+	config.AddOption("sessions", "blockkey", "09876543210987654321098765432109")
+	config.AddOption("clients", "internalsecret", string(testInternalSecret))
+	config.AddOption("geoip", "url", "none")
+	return config
+}
+
+func (w *c02World) etcdPut(e c02Entry) {
+	data, _ := json.Marshal(map[string]string{"url": w.base[e.Endpoint-1], "secret": e.Secret})
+	w.etcd.EtcdKeyUpdated(nil, fmt.Sprintf("/backends/backend%d", e.Name), data, nil)
+}
+
+// reconfigure changes the configuration of the running server to layout: BackendClient.Reload with
+// the new configuration file (what SIGHUP does), or the etcd events that lead from the present
+// keys to the new ones (puts for new and changed keys, deletes for removed ones).  The server is
+// quiet when this is called; from here on the fake backend judges every request it receives
+// against the new table.
+func (w *c02World) reconfigure(phase string, layout []c02Entry) {
+	if w.etcd != nil {
+		old := map[int]c02Entry{}
+		for _, e := range w.layout {
+			old[e.Name] = e
+		}
+		for _, e := range layout {
+			if o, ok := old[e.Name]; !ok || o != e {
+				w.etcdPut(e)
+			}
+			delete(old, e.Name)
+		}
+		for name := range old {
+			w.etcd.EtcdKeyDeleted(nil, fmt.Sprintf("/backends/backend%d", name), nil)
+		}
+	} else {
+		w.hub.backend.Reload(w.serverConfig(layout))
+	}
+	w.layout = layout
+	w.fake.setCur(phase, c02CurOf(layout))
 }
 
 var c02Epoch = time.Unix(1700000000, 0)
@@ -241,8 +354,6 @@ func c02NewWorld(t *testing.T, cfg c02Cfg, join bool) *c02World {
 	t.Cleanup(unconf.Close)
 	w.extra[0] = unconf
 
-	config := goconf.NewConfigFile()
-	var ids []string
 	for i, b := range cfg.Backends {
 		id := i + 1
 		base := w.hostURL(b.Host) + b.Path
@@ -257,29 +368,34 @@ func c02NewWorld(t *testing.T, cfg c02Cfg, join bool) *c02World {
 		}
 		r.HandleFunc(p+"/ocs/v2.php/cloud/capabilities", w.fake.capabilities)
 		r.HandleFunc(p+"/ocs/v2.php/apps/spreed/api/v1/signaling/backend", w.fake.handler(t, id))
-		if !cfg.Compat {
-			name := fmt.Sprintf("backend%d", id)
-			ids = append(ids, name)
-			config.AddOption(name, "url", base)
-			config.AddOption(name, "secret", b.Secret)
-		}
+		w.layout = append(w.layout, c02Entry{Name: id, Endpoint: id, Secret: w.secret(id)})
 	}
-	if cfg.Compat {
-		u, _ := url.Parse(w.server.URL)
-		config.AddOption("backend", "allowed", u.Host)
-		config.AddOption("backend", "secret", cfg.Backends[0].Secret)
-	} else {
-		config.AddOption("backend", "backends", strings.Join(ids, ", "))
-	}
-	config.AddOption("backend", "allowhttp", "true")
-	config.AddOption("sessions", "hashkey", "12345678901234567890123456789012")
-	config.AddOption("sessions", "blockkey", "09876543210987654321098765432109")
-	config.AddOption("clients", "internalsecret", string(testInternalSecret))
-	config.AddOption("geoip", "url", "none")
+	config := w.serverConfig(w.layout)
+	w.fake.setCur("initial", c02CurOf(w.layout))
 	events := getAsyncEventsForTest(t)
 	hub, err := NewHub(config, events, nil, nil, nil, w.router, "no-version")
 	if err != nil {
 		t.Fatal(err)
+	}
+	if cfg.Etcd {
+		// an etcd backend storage without etcd server: the events are called directly (as for C13);
+		// installed before the hub runs and before any lookup
+		w.etcd = &backendStorageEtcd{
+			backendStorageCommon: backendStorageCommon{backends: make(map[string][]*Backend)},
+			keyPrefix:            "/backends",
+			keyInfos:             make(map[string]*BackendInformationEtcd),
+		}
+		hub.backend.backends = &BackendConfiguration{storage: c02EtcdStorage{w.etcd}}
+		for _, e := range w.layout {
+			w.etcdPut(e)
+		}
+	}
+	w.fake.lookup = func(u *url.URL) *string {
+		if b := hub.backend.GetBackend(u); b != nil {
+			s := string(b.Secret())
+			return &s
+		}
+		return nil
 	}
 	bs, err := NewBackendServer(config, hub, "no-version")
 	if err != nil {
@@ -426,7 +542,7 @@ type c02Op struct {
 	Bhdr       string   `json:"bhdr"` // template: {B1}.. base URL of backend i, {U} unconfigured host, {H} host of the server
 	BhdrFlips  [][2]int `json:"bhdr_flips,omitempty"`
 	BhdrAbsent bool     `json:"bhdr_absent,omitempty"`
-	Body       string   `json:"body"` // hex
+	Body       string   `json:"body"`            // hex
 	Claim      *int     `json:"claim,omitempty"` // backend the header is meant to name, -1 = none, absent = unknown
 
 	Status    int      `json:"status"`
@@ -451,6 +567,12 @@ type c02OutJson struct {
 	Rnd     string `json:"rnd"`
 	Chk     string `json:"chk"`
 	Body    string `json:"body"`
+	// the step of the configuration history after which the request was sent ("initial": none yet),
+	// hex of the secret the generator configured for the receiving endpoint's URL at that time (absent:
+	// no backend there), hex of the secret of the server's own GetBackend(url) at that time
+	Phase  string  `json:"phase,omitempty"`
+	Secret *string `json:"secret_in_force,omitempty"`
+	Lookup *string `json:"secret_of_lookup,omitempty"`
 }
 
 func unhexS(s string) string { b, _ := hex.DecodeString(s); return string(b) }
@@ -741,14 +863,14 @@ func (g *c02Gen) unknown() (string, *int) {
 }
 
 type c02Req struct {
-	target                int
-	rnd, chk, bhdr, body  string
-	bhdrAbsent            bool
-	rndAbsent, chkAbsent  bool
-	claim                 *int
-	flips                 [][2]int
-	method, ctype         string
-	clen                  int
+	target               int
+	rnd, chk, bhdr, body string
+	bhdrAbsent           bool
+	rndAbsent, chkAbsent bool
+	claim                *int
+	flips                [][2]int
+	method, ctype        string
+	clen                 int
 }
 
 // valid builds a correctly signed request of backend id; header chooses whether the backend header is sent.
@@ -1073,9 +1195,11 @@ func c02GenCase(r *vrng, w *c02World, id int) *c02Case {
 // Directed cases, run first for every configuration with several backends: the complete matrix
 // of (backend named by the header) x (backend whose secret signed the request), split so that a
 // failure shrinks to the request that shows it:
-//   0  header names h, signed with the secret of another backend s: every one must be refused
-//   1  header names h, signed with h's secret: accepted, event to h's clients only
-//   2  no header, signed with s's secret: accepted as s
+//
+//	0  header names h, signed with the secret of another backend s: every one must be refused
+//	1  header names h, signed with h's secret: accepted, event to h's clients only
+//	2  no header, signed with s's secret: accepted as s
+//
 // The header is sent in the forms a Nextcloud instance uses (base URL, with "/", with the OCS path).
 func c02Directed(w *c02World, id int, part int) *c02Case {
 	g := &c02Gen{r: newVrng(7, uint64(1000+part)), w: w}
@@ -1331,6 +1455,25 @@ func TestVerifC02(t *testing.T) {
 		}
 		outCfgs = append(outCfgs, cfg)
 	}
+	// configuration histories: the backend table changes between the requests (static reload / etcd events)
+	for _, cfg := range catalog {
+		static := cfg.Name == "shared3" || cfg.Name == "hosts2"
+		etcd := cfg.Name == "mixed3"
+		if env.thorough() {
+			static = !cfg.Compat && len(cfg.Backends) >= 2
+			etcd = static
+		}
+		if static {
+			c := cfg
+			c.Name, c.Reload = "out_reload_"+cfg.Name, true
+			outCfgs = append(outCfgs, c)
+		}
+		if etcd {
+			c := cfg
+			c.Name, c.Reload, c.Etcd = "out_etcd_"+cfg.Name, true, true
+			outCfgs = append(outCfgs, c)
+		}
+	}
 	c02Outgoing(t, env, sink, outCfgs)
 
 	sink.close("seeded requests to /api/v1/room/{id} of the real BackendServer+Hub (real HTTP connection or router call) over six configurations; " +
@@ -1522,84 +1665,212 @@ func (w *c02World) kinds() map[string]int {
 
 // drive makes the server send every kind of backend request for backend id.
 func (w *c02World) drive(id int, round int) {
+	w.driveStart(id, round).rest()
+}
+
+// A driven backend in the middle of its history: a user session in a room and an internal client
+// exist (auth and room join were sent); ping, virtual sessions and the leave are still to come.
+// The configuration may be changed between the two halves: the sessions then "straddle" the change.
+type c02Drive struct {
+	w      *c02World
+	id     int
+	room   string
+	c, ic  *TestClient
+	before map[string]int
+}
+
+func (d *c02Drive) key(k string) string { return fmt.Sprintf("%d:%s", d.id, k) }
+func (d *c02Drive) grew(k string) func() bool {
+	return func() bool { return d.w.kinds()[d.key(k)] > d.before[d.key(k)] }
+}
+
+func (w *c02World) driveStart(id int, round int) *c02Drive {
 	t := w.t
 	ctx, cancel := context.WithTimeout(context.Background(), testTimeout)
 	defer cancel()
-	key := func(k string) string { return fmt.Sprintf("%d:%s", id, k) }
-	before := w.kinds()
-	grew := func(k string) func() bool {
-		return func() bool { return w.kinds()[key(k)] > before[key(k)] }
-	}
-	room := fmt.Sprintf("out-room-%d-%d", id, round)
+	d := &c02Drive{w: w, id: id, before: w.kinds(), room: fmt.Sprintf("out-room-%d-%d", id, round)}
 	// auth + room join
-	c := NewTestClient(t, w.server, w.hub)
-	if err := c.SendHelloParams(w.base[id-1], HelloVersionV1, "", nil, TestBackendClientAuthParams{UserId: fmt.Sprintf("out%d", round)}); err != nil {
+	d.c = NewTestClient(t, w.server, w.hub)
+	if err := d.c.SendHelloParams(w.base[id-1], HelloVersionV1, "", nil, TestBackendClientAuthParams{UserId: fmt.Sprintf("out%d", round)}); err != nil {
 		t.Fatal(err)
 	}
-	if _, err := c.RunUntilHello(ctx); err != nil {
+	if _, err := d.c.RunUntilHello(ctx); err != nil {
 		t.Fatalf("outgoing: hello backend %d: %v", id, err)
 	}
-	if _, err := c.JoinRoom(ctx, room); err != nil {
+	if _, err := d.c.JoinRoom(ctx, d.room); err != nil {
 		t.Fatalf("outgoing: join backend %d: %v", id, err)
 	}
-	c02WaitFor(t, "auth", grew("auth"))
-	c02WaitFor(t, "room/join", grew("room/join"))
-	// ping (direct, or queued and sent combined when the backend announces a ping limit)
-	c02WaitFor(t, "ping", func() bool {
-		w.hub.ru.RLock()
-		var rooms []*Room
-		for _, r := range w.hub.rooms {
-			rooms = append(rooms, r)
-		}
-		w.hub.ru.RUnlock()
-		for _, r := range rooms {
-			if r.Id() == room {
-				_, wg := r.publishActiveSessions()
-				wg.Wait()
-			}
-		}
-		w.hub.roomPing.publishActiveSessions()
-		return grew("ping")()
-	})
-	// virtual sessions through an internal client of this backend
-	ic := NewTestClient(t, w.server, w.hub)
+	c02WaitFor(t, "auth", d.grew("auth"))
+	c02WaitFor(t, "room/join", d.grew("room/join"))
+	// an internal client of this backend
+	d.ic = NewTestClient(t, w.server, w.hub)
 	rnd := newRandomString(48)
 	mac := hmac.New(sha256.New, testInternalSecret)
 	mac.Write([]byte(rnd))
-	if err := ic.SendHelloParams("", HelloVersionV1, "internal", nil, ClientTypeInternalAuthParams{Random: rnd, Token: hex.EncodeToString(mac.Sum(nil)), Backend: w.base[id-1]}); err != nil {
+	if err := d.ic.SendHelloParams("", HelloVersionV1, "internal", nil, ClientTypeInternalAuthParams{Random: rnd, Token: hex.EncodeToString(mac.Sum(nil)), Backend: w.base[id-1]}); err != nil {
 		t.Fatal(err)
 	}
-	if _, err := ic.RunUntilHello(ctx); err != nil {
+	if _, err := d.ic.RunUntilHello(ctx); err != nil {
 		t.Fatalf("outgoing: internal hello backend %d: %v", id, err)
 	}
+	return d
+}
+
+// pingNow makes the room of this drive and the combined-ping queue send their pings (synchronously).
+func (d *c02Drive) pingNow() {
+	w := d.w
+	w.hub.ru.RLock()
+	var rooms []*Room
+	for _, r := range w.hub.rooms {
+		rooms = append(rooms, r)
+	}
+	w.hub.ru.RUnlock()
+	for _, r := range rooms {
+		if r.Id() == d.room {
+			_, wg := r.publishActiveSessions()
+			wg.Wait()
+		}
+	}
+	w.hub.roomPing.publishActiveSessions()
+}
+
+func (d *c02Drive) rest() {
+	w, t, room := d.w, d.w.t, d.room
+	ic, c := d.ic, d.c
+	d.before = w.kinds()
+	// ping (direct, or queued and sent combined when the backend announces a ping limit)
+	c02WaitFor(t, "ping", func() bool {
+		d.pingNow()
+		return d.grew("ping")()
+	})
 	common := func(sid string) CommonSessionInternalClientMessage {
 		return CommonSessionInternalClientMessage{SessionId: sid, RoomId: room}
 	}
-	// without options: session add / remove
+	// virtual sessions through the internal client; without options: session add / remove
 	if err := ic.SendInternalAddSession(&AddSessionInternalClientMessage{CommonSessionInternalClientMessage: common("v1"), UserId: "vuser1"}); err != nil {
 		t.Fatal(err)
 	}
-	c02WaitFor(t, "session/add", grew("session/add"))
+	c02WaitFor(t, "session/add", d.grew("session/add"))
 	if err := ic.SendInternalRemoveSession(&RemoveSessionInternalClientMessage{CommonSessionInternalClientMessage: common("v1"), UserId: "vuser1"}); err != nil {
 		t.Fatal(err)
 	}
-	c02WaitFor(t, "session/remove", grew("session/remove"))
+	c02WaitFor(t, "session/remove", d.grew("session/remove"))
 	// with options: room join / leave for the virtual session
-	joins, leaves := w.kinds()[key("room/join")], w.kinds()[key("room/leave")]
+	joins, leaves := w.kinds()[d.key("room/join")], w.kinds()[d.key("room/leave")]
 	if err := ic.SendInternalAddSession(&AddSessionInternalClientMessage{CommonSessionInternalClientMessage: common("v2"), UserId: "vuser2",
 		Options: &AddSessionOptions{ActorId: "actor", ActorType: "type"}}); err != nil {
 		t.Fatal(err)
 	}
-	c02WaitFor(t, "virtual room/join", func() bool { return w.kinds()[key("room/join")] > joins })
+	c02WaitFor(t, "virtual room/join", func() bool { return w.kinds()[d.key("room/join")] > joins })
 	if err := ic.SendInternalRemoveSession(&RemoveSessionInternalClientMessage{CommonSessionInternalClientMessage: common("v2"), UserId: "vuser2"}); err != nil {
 		t.Fatal(err)
 	}
-	c02WaitFor(t, "virtual room/leave", func() bool { return w.kinds()[key("room/leave")] > leaves })
-	leaves = w.kinds()[key("room/leave")]
+	c02WaitFor(t, "virtual room/leave", func() bool { return w.kinds()[d.key("room/leave")] > leaves })
+	leaves = w.kinds()[d.key("room/leave")]
 	ic.CloseWithBye()
 	// the client leaves the room: room leave
 	c.CloseWithBye()
-	c02WaitFor(t, "room/leave", func() bool { return w.kinds()[key("room/leave")] > leaves })
+	c02WaitFor(t, "room/leave", func() bool { return w.kinds()[d.key("room/leave")] > leaves })
+}
+
+// restRemoved: the second half for sessions whose backend is no longer configured.  The server has
+// nobody to send their pings and leaves to: whatever arrives at the old endpoint is recorded (with
+// no secret in force) and judged; nothing is waited for.
+func (d *c02Drive) restRemoved() {
+	w := d.w
+	for i := 0; i < 2; i++ {
+		d.pingNow()
+	}
+	d.ic.CloseWithBye()
+	d.c.CloseWithBye()
+	// the leave request is sent (or not) while the session is closed: wait until the room is gone
+	c02WaitFor(w.t, "room of the removed backend closed", func() bool {
+		w.hub.ru.RLock()
+		defer w.hub.ru.RUnlock()
+		for _, r := range w.hub.rooms {
+			if r.Id() == d.room {
+				return false
+			}
+		}
+		return true
+	})
+	time.Sleep(10 * time.Millisecond)
+}
+
+// c02ReloadHistory: outgoing requests of every kind, a change of the configuration, outgoing
+// requests of every kind again (from sessions that existed before the change and from new ones,
+// all to URLs that were used before), for: changed secrets (one backend keeps its secret),
+// exchanged URLs, a removed backend, the backend added again with another secret.
+func (w *c02World) reloadHistory(r *vrng) {
+	n := len(w.cfg.Backends)
+	all := func() []int {
+		var l []int
+		for i := 1; i <= n; i++ {
+			l = append(l, i)
+		}
+		return l
+	}
+	startAll := func(ids []int, round int) []*c02Drive {
+		var ds []*c02Drive
+		for _, id := range ids {
+			ds = append(ds, w.driveStart(id, round))
+		}
+		return ds
+	}
+	clone := func() []c02Entry { return append([]c02Entry(nil), w.layout...) }
+	fresh := func() string { return c02Secret(r, 12+r.intn(24)) }
+
+	// every URL is used under the initial secrets
+	for _, id := range all() {
+		w.drive(id, 100)
+	}
+	// 1. secrets changed; the last backend keeps its secret when there are several
+	ds := startAll(all(), 101)
+	l := clone()
+	for i := range l {
+		if n == 1 || i < n-1 {
+			l[i].Secret = fresh()
+		}
+	}
+	w.reconfigure("secret-changed", l)
+	for _, d := range ds {
+		d.rest()
+	}
+	for _, id := range all() {
+		w.drive(id, 102)
+	}
+	// 2. the URLs of the first two backends exchanged (each keeps its name and secret)
+	if n >= 2 {
+		ds = startAll([]int{1, 2}, 103)
+		l = clone()
+		l[0].Endpoint, l[1].Endpoint = l[1].Endpoint, l[0].Endpoint
+		w.reconfigure("urls-exchanged", l)
+		for _, d := range ds {
+			d.rest()
+		}
+		w.drive(1, 104)
+		w.drive(2, 104)
+	}
+	// 3. the backend at the first endpoint removed
+	ds = startAll([]int{1}, 105)
+	l = nil
+	var gone c02Entry
+	for _, e := range w.layout {
+		if e.Endpoint == 1 {
+			gone = e
+		} else {
+			l = append(l, e)
+		}
+	}
+	w.reconfigure("backend-removed", l)
+	ds[0].restRemoved()
+	if n >= 2 {
+		w.drive(2, 106)
+	}
+	// 4. and configured again, with another secret
+	gone.Secret = fresh()
+	w.reconfigure("backend-added-again", append(clone(), gone))
+	w.drive(1, 107)
 }
 
 func c02Outgoing(t *testing.T, env verifEnv, sink *caseSink, cfgs []c02Cfg) {
@@ -1608,42 +1879,72 @@ func c02Outgoing(t *testing.T, env verifEnv, sink *caseSink, cfgs []c02Cfg) {
 		rounds = 12
 	}
 	var terms []string
-	id := 700000
 	kinds := map[string]bool{}
 	seenRnd := map[string]int{}
-	for ci, cfg := range cfgs {
-		t.Run(fmt.Sprintf("out%d", ci), func(t *testing.T) {
-			w := c02NewWorld(t, cfg, false)
-			for round := 0; round < rounds; round++ {
-				for b := range cfg.Backends {
-					w.drive(b+1, round)
+	// every configuration has its own server, fake backends and clients: the histories run side by
+	// side (they mostly wait for the network), the records are collected one world at a time
+	var collect sync.Mutex
+	t.Run("out", func(t *testing.T) {
+		for ci, cfg := range cfgs {
+			ci, cfg := ci, cfg
+			t.Run(fmt.Sprintf("out%d", ci), func(t *testing.T) {
+				t.Parallel()
+				id := 700000 + 4000*ci
+				w := c02NewWorld(t, cfg, false)
+				if cfg.Reload {
+					w.reloadHistory(newVrng(env.seed, uint64(880000+ci)))
+					if env.thorough() {
+						// a second pass over the changed configuration: more changes of the same kinds
+						w.reloadHistory(newVrng(env.seed, uint64(890000+ci)))
+					}
+				} else {
+					for round := 0; round < rounds; round++ {
+						for b := range cfg.Backends {
+							w.drive(b+1, round)
+						}
+					}
 				}
-			}
-			time.Sleep(20 * time.Millisecond)
-			w.fake.mu.Lock()
-			defer w.fake.mu.Unlock()
-			for _, r := range w.fake.recs {
-				id++
-				if r.NRnd != 1 || r.NChk != 1 {
-					sink.violation(id, fmt.Sprintf("request %s to backend %d carries %d random and %d checksum headers", r.Kind, r.Backend, r.NRnd, r.NChk), nil)
+				time.Sleep(20 * time.Millisecond)
+				collect.Lock()
+				defer collect.Unlock()
+				w.fake.mu.Lock()
+				defer w.fake.mu.Unlock()
+				for _, r := range w.fake.recs {
+					id++
+					if r.NRnd != 1 || r.NChk != 1 {
+						sink.violation(id, fmt.Sprintf("request %s to backend %d carries %d random and %d checksum headers", r.Kind, r.Backend, r.NRnd, r.NChk), nil)
+					}
+					if prev, dup := seenRnd[r.Rnd]; dup {
+						sink.violation(id, fmt.Sprintf("outgoing requests %d and %d carry the same random %q (statistical freshness test over the whole run)", prev, id, r.Rnd), nil)
+					}
+					seenRnd[r.Rnd] = id
+					// the secret in force when the request was received (not the one of the end of the scenario)
+					optHex := func(s *string) (string, string, *string) {
+						if s == nil {
+							return "None", "", nil
+						}
+						h := hexS(*s)
+						return fmt.Sprintf("(Some \"%s\"%%string)", h), c02Mac(*s, r.Rnd, r.Body), &h
+					}
+					curCoq, curMac, curHex := optHex(r.Cur)
+					lookCoq, lookMac, lookHex := optHex(r.Look)
+					terms = append(terms, fmt.Sprintf("mkout %d%%N %s %s \"%s\" \"%s\" \"%s\" \"%s\" \"%s\"", id, curCoq, lookCoq, hexS(r.Rnd), hexS(r.Chk),
+						hex.EncodeToString(r.Body), curMac, lookMac))
+					js, _ := json.Marshal(c02Case{Id: id, Cfg: cfg, Outgoing: &c02OutJson{Backend: r.Backend, Kind: r.Kind, Rnd: hexS(r.Rnd), Chk: hexS(r.Chk), Body: hex.EncodeToString(r.Body),
+						Phase: r.Phase, Secret: curHex, Lookup: lookHex}})
+					sink.jsonl.Write(append(js, '\n'))
+					sink.stats.Evaluations++
+					sink.count("outgoing_" + r.Kind)
+					sink.count("outgoing_" + cfg.Name)
+					if cfg.Reload {
+						sink.count("outgoing_after_" + r.Phase)
+					}
+					kinds[r.Kind] = true
 				}
-				if prev, dup := seenRnd[r.Rnd]; dup {
-					sink.violation(id, fmt.Sprintf("outgoing requests %d and %d carry the same random %q (statistical freshness test over the whole run)", prev, id, r.Rnd), nil)
-				}
-				seenRnd[r.Rnd] = id
-				secret := w.secret(r.Backend)
-				terms = append(terms, fmt.Sprintf("mkout %d%%N \"%s\" \"%s\" \"%s\" \"%s\" \"%s\"", id, hexS(secret), hexS(r.Rnd), hexS(r.Chk),
-					hex.EncodeToString(r.Body), c02Mac(secret, r.Rnd, r.Body)))
-				js, _ := json.Marshal(c02Case{Id: id, Cfg: cfg, Outgoing: &c02OutJson{Backend: r.Backend, Kind: r.Kind, Rnd: hexS(r.Rnd), Chk: hexS(r.Chk), Body: hex.EncodeToString(r.Body)}})
-				sink.jsonl.Write(append(js, '\n'))
-				sink.stats.Evaluations++
-				sink.count("outgoing_" + r.Kind)
-				sink.count("outgoing_" + cfg.Name)
-				kinds[r.Kind] = true
-			}
-			sink.stats.Histogram["capabilities_requests_without_checksum"] += w.fake.caps
-		})
-	}
+				sink.stats.Histogram["capabilities_requests_without_checksum"] += w.fake.caps
+			})
+		}
+	})
 	for _, k := range []string{"auth", "room/join", "room/leave", "ping", "session/add", "session/remove"} {
 		if !kinds[k] {
 			sink.violation(800000, "the outgoing scenario did not make the server send a request of kind "+k+" (harness)", nil)
